@@ -18,7 +18,7 @@ pub fn presence_values(ctx: &Ctx, e: &Entry) -> Vec<Value> {
         if is_default && val == 5 {
             val = 6;
         }
-        let present = Some(Value::Int(val));
+        let present = Some(sample_value(ctx.module_of(e), &c.ty, val));
         let dom = match (&c.presence, i >= nroot) {
             (Presence::Mandatory, false) => vec![present],
             (Presence::Mandatory, true) | (Presence::Optional, _) => vec![None, present],
@@ -27,6 +27,16 @@ pub fn presence_values(ctx: &Ctx, e: &Entry) -> Vec<Value> {
         doms.push(dom);
     }
     vcore::values::product_or_diagonal(&doms, 1 << 12).into_iter().map(Value::Seq).collect()
+}
+
+/// a value of `ty` that identifies the component it stands in (INTEGER: `val`; a SEQUENCE: built from `val`)
+fn sample_value(m: &Module, ty: &Ty, val: i128) -> Value {
+    match m.resolve(ty) {
+        Ty::Int { .. } => Value::Int(val),
+        Ty::Bool => Value::Bool(val % 2 == 1),
+        Ty::Seq { comps, .. } => Value::Seq(comps.iter().map(|c| Some(sample_value(m, &c.ty, val))).collect()),
+        other => panic!("C03 shapes: no sample value for {}", other.asn()),
+    }
 }
 
 /// The encoder may refuse only with ExtensionFieldsInconsistent and only when the first extension
@@ -62,6 +72,25 @@ pub fn check_case(ctx: &Ctx, e: &Entry, v: &Value, agg: &mut Agg) {
             let allowed = k == "ExtensionFieldsInconsistent" && refusal_allowed(m, &d.ty, v);
             if allowed {
                 agg.count("documented_refusals", 1);
+                // the WRITER may refuse this presence pattern; a conforming sender produces it, and the reader must
+                // decode it (absent decodes as absent) - unless a recorded quirk changes what this reader expects
+                if open_only(&applicable, "C03").is_empty() {
+                    if let Ok(strict) = refper::encode_top(m, e.def, v) {
+                        agg.count("refused_patterns_decoded_from_reference_bits", 1);
+                        let case = || case_json(e, v, 0, "c03");
+                        match impl_decode(e.ops, &strict.bits, 0) {
+                            Err(p) => agg.fail(format!("refused-pattern.read-panic.{kind}"), case(), v.short(), format!("panic: {p}")),
+                            Ok(Err((_, detail))) => agg.fail(format!("refused-pattern.read-err.{kind}"), case(), v.short(), format!("Err({detail}) on {}", show_bits(&strict.bits))),
+                            Ok(Ok(dec)) => {
+                                if dec.value != v.normalize() {
+                                    agg.fail(format!("refused-pattern.read-value.{kind}"), case(), v.short(), dec.value.short());
+                                } else if dec.remaining != 0 {
+                                    agg.fail(format!("refused-pattern.read-remaining.{kind}"), case(), "0 bits remaining".into(), format!("{} bits remaining", dec.remaining));
+                                }
+                            }
+                        }
+                    }
+                }
             } else if applicable.contains(&refper::Quirk::MarkerBeforeFirstAsAfterFirst) && k == "ExtensionFieldsInconsistent" {
                 // under the recorded quirk the subject's "first addition" is the second component
                 let mut q = Quirks::new();
